@@ -2,6 +2,8 @@
 package main
 
 import (
+	"time"
+
 	"verif.local/sim/orch"
 	"verif.local/sim/props"
 )
@@ -24,5 +26,8 @@ func main() {
 			"verdicts are sampled over seeds except where the evidence says a finite set was enumerated",
 		},
 		HangIsViolation: map[string]bool{"C09": true},
+		// no run of this engine legitimately takes a second; a run still going
+		// after 20 s (then 60 s on the confirming retry) is a hang
+		PerRunTimeout: 20 * time.Second,
 	})
 }
